@@ -84,6 +84,8 @@ def check_normalised(api, sh, stats, tol=1e-8):
     # a freshly constructed shell with the same parameters has the same normalisation
     try:
         fresh = type(sh)(sh.angmom, sh.coord, sh.coeffs, sh.exps, sh.coord_type)
+        if hasattr(sh, "variant"):
+            fresh.variant = sh.variant
     except Exception as exc:  # noqa: BLE001
         return f"constructing an identical fresh shell raised {type(exc).__name__}: {exc}"
     fn = np.asarray(fresh.norm_cont)
